@@ -776,14 +776,6 @@ func runC15(c *Ctx) Result {
 			c.inc("fault_forced_representation_change")
 		}
 	}
-	if pendingKnown != "" {
-		defer func() {
-			if res.Sig == "" {
-				res.Sig = "C15:Len:partial-count-on-lazy-node"
-				res.Detail = pendingKnown + fmt.Sprintf(" | doc=%q history=%v", clip(doc, 200), hist)
-			}
-		}()
-	}
 	// final state
 	want := model.canonY()
 	for i, im := range impls {
@@ -792,6 +784,10 @@ func runC15(c *Ctx) Result {
 		}
 	}
 	sample["history"] = hist
+	if pendingKnown != "" {
+		res.Sig = "C15:Len:partial-count-on-lazy-node"
+		res.Detail = pendingKnown + fmt.Sprintf(" | doc=%q history=%v", clip(doc, 200), hist)
+	}
 	return res
 }
 
